@@ -105,8 +105,31 @@ def witness_cases():
     return out
 
 
+def fixed_width_growth_cases(rng):
+    """an UPDATE that assigns a fixed-width value (INT / BIGINT / BOOLEAN) to a column that is NULL makes the
+    row longer too: the first matching row fits, a later one (padded to within a few bytes of the 400-byte
+    limit) does not; nothing may be changed. id INT + pad VARCHAR + n <type>, n omitted at INSERT."""
+    out = []
+    for ty, grow, val in (("int", 4, 7), ("bigint", 8, 9), ("boolean", 1, True)):
+        # row size with n NULL: 5 + (5 + len(pad)) + 1; with n set: + grow
+        lo = 400 - 11 - grow + 1
+        L = rng.randint(lo, 400 - 11)
+        t = {"k": "create", "table": "g", "cols": [("id", "int", 0), ("pad", "varchar", 400), ("n", ty, 0)]}
+        rows = [[1, "short"], [2, "p" * L], [3, "x"]]
+        rng.shuffle(rows)
+        if rows[0][1].startswith("p"):
+            rows[0], rows[1] = rows[1], rows[0]            # the long row is not the first one
+        ins = {"k": "insert", "table": "g", "cols": ["id", "pad"], "rows": rows}
+        upd = {"k": "update", "table": "g", "sets": [("n", val)], "where": None}
+        names = ["g", "sys_schema"]
+        evs = [("stmt", t), ("stmt", ins), ("tables", names), ("dstmt" if ty == "boolean" else "stmt", upd), ("tables", names),
+               ("flush",), ("crash",), ("tables", names)]
+        out.append(("update/null-to-" + ty + "-size", 2, evs, 2))
+    return out
+
+
 def build_cases(rng, tier):
-    cases = witness_cases()
+    cases = witness_cases() + fixed_width_growth_cases(rng)
     nstates = 6 if tier == "quick" else 60
     for _ in range(nstates):
         g = hist.Gen(rng, 2)
